@@ -670,6 +670,15 @@ impl RegisterDomain for IntervalDomain {
                 self.clone().sign_extend(width)
             }
             Float2Float | Int2Float | Trunc => IntervalDomain::new_top(width),
+            PopCount | LzCount
+                if self.try_to_bitvec().is_err()
+                    && width.as_bit_length() <= 64
+                    && self.bytesize().as_bit_length() >> (width.as_bit_length() - 1) != 0 =>
+            {
+                // The bit length of the operand (the largest possible count) is not representable
+                // as a non-negative signed value of the result size.
+                IntervalDomain::new_top(width)
+            }
             PopCount => {
                 if let Ok(bitvec) = self.try_to_bitvec() {
                     bitvec.cast(kind, width).unwrap().into()
